@@ -170,6 +170,15 @@ Proof.
         assert (Hr : rerouted jt = false) by (unfold rerouted; rewrite Hex, Hhd; reflexivity). rewrite Hr.
         apply (IH _ _ _ _ _ _ bp H Hp Hnb Hnd Hpn).
 Qed.
+
+Lemma le_targets_noop : forall snap g new_jt names,
+  filter rerouted snap = [] -> le_targets c g p snap new_jt names = Ok (g, new_jt, names).
+Proof.
+  induction snap as [|jt rest IH]; intros g new_jt names Hf; [reflexivity|].
+  cbn [filter] in Hf. destruct (rerouted jt) eqn:Hr; [discriminate|].
+  unfold rerouted in Hr. apply orb_false_iff in Hr as [H1 H2].
+  cbn [le_targets]. rewrite H1, H2. apply IH. exact Hf.
+Qed.
 End OneBlock.
 
 Lemma nodup_app_l {A} (l1 l2 : list A) : NoDup (l1 ++ l2) -> NoDup l1.
@@ -188,14 +197,14 @@ Variable c : lctx.
 (* what block p with old content b has become, given the names usedp it consumed *)
 Definition BlockDone (g1 : egraph) (p : name) (b : eblk) (usedp : list name) : Prop :=
   let arcs := combine (filter (rerouted c p) (ejts b)) usedp in
-  efind g1 p = Some (mkE (subst_all arcs (ejts b)) (e_be b) (e_kind b)) /\
+  (exists b', efind g1 p = Some b' /\ replace_jt b (subst_all arcs (ejts b)) = Some b') /\
   length usedp = length (filter (rerouted c p) (ejts b)) /\ NoDup usedp /\
   (forall t a, In (t, a) arcs -> efind g1 a = Some (mkE [l_latch c] [] (EAssign (asg_of c t)))).
 
 Lemma le_blocks_spec : forall todo g names g1 names1,
   le_blocks c g todo names = Ok (g1, names1) ->
   NoDup todo -> NoDup names -> (forall a, In a names -> ~ In a todo) ->
-  (forall p, In p todo -> exists b, efind g p = Some b /\ nonbranch b) ->
+  (forall p, In p todo -> exists b, efind g p = Some b /\ (nonbranch b \/ filter (rerouted c p) (ejts b) = [])) ->
   exists used,
     names = used ++ names1 /\
     (forall x, ~ In x todo -> ~ In x used -> efind g1 x = efind g x) /\
@@ -205,16 +214,35 @@ Proof.
   induction todo as [|p rest IH]; intros g names g1 names1 H Htd Hnd Hfresh Hall.
   - cbn in H. injection H as <- <-. exists []. split; [reflexivity|]. split; [auto|intros p []].
   - cbn [le_blocks] in H. inversion Htd as [|? ? Hpr Htd']; subst.
-    destruct (Hall p (or_introl eq_refl)) as [b [Hb Hnb]]. rewrite Hb in H.
+    destruct (Hall p (or_introl eq_refl)) as [b [Hb Hcase]]. rewrite Hb in H.
     destruct (le_targets c g p (ejts b) (ejts b) names) as [[[g1' new_jt] names1']| |] eqn:Ht; try discriminate.
     assert (Hpn : ~ In p names) by (intros Hi; apply (Hfresh p Hi); left; reflexivity).
-    destruct (le_targets_spec c p _ _ _ _ _ _ _ b Ht Hb Hnb Hnd Hpn)
-      as [usedp [bp1 [Hn [Hp1 [Hbe [Hk [Hoth [Hlen [Hjt Hasg]]]]]]]]].
-    destruct (dpop g1' p) as [[b0 g2]|] eqn:Hpop; [|discriminate].
-    assert (b0 = bp1) by (apply dpop_value in Hpop; unfold efind in Hp1; congruence). subst b0.
-    assert (Hnb1 : nonbranch bp1) by (unfold nonbranch; rewrite Hk; exact Hnb).
-    rewrite (replace_jt_nonbranch bp1 _ Hnb1) in H. rewrite Hbe, Hk in H.
-    set (b1 := mkE new_jt (e_be b) (e_kind b)) in *.
+    (* what the inner loop did, in both cases *)
+    assert (Hstep : exists usedp b0,
+              names = usedp ++ names1' /\ efind g1' p = Some b0 /\
+              (forall jt, replace_jt b0 jt = replace_jt b jt \/
+                          (replace_jt b0 jt = Some (mkE jt (e_be b) (e_kind b)) /\ replace_jt b jt = Some (mkE jt (e_be b) (e_kind b)))) /\
+              (forall x, x <> p -> ~ In x usedp -> efind g1' x = efind g x) /\
+              length usedp = length (filter (rerouted c p) (ejts b)) /\
+              new_jt = subst_all (combine (filter (rerouted c p) (ejts b)) usedp) (ejts b) /\
+              (forall t a, In (t, a) (combine (filter (rerouted c p) (ejts b)) usedp) ->
+                           efind g1' a = Some (mkE [l_latch c] [] (EAssign (asg_of c t))))).
+    { destruct Hcase as [Hnb|Hnone].
+      - destruct (le_targets_spec c p _ _ _ _ _ _ _ b Ht Hb Hnb Hnd Hpn)
+          as [usedp [bp1 [Hn [Hp1 [Hbe [Hk [Hoth [Hlen [Hjt Hasg]]]]]]]]].
+        exists usedp, bp1. split; [exact Hn|]. split; [exact Hp1|]. split.
+        + intros jt. right. assert (Hnb1 : nonbranch bp1) by (unfold nonbranch; rewrite Hk; exact Hnb).
+          rewrite (replace_jt_nonbranch bp1 jt Hnb1), (replace_jt_nonbranch b jt Hnb), Hbe, Hk. auto.
+        + auto.
+      - rewrite (le_targets_noop c p _ g (ejts b) names Hnone) in Ht. injection Ht as <- <- <-.
+        exists [], b. rewrite Hnone. cbn. split; [reflexivity|]. split; [exact Hb|]. split; [intros jt; left; reflexivity|].
+        split; [auto|]. split; [reflexivity|]. split; [reflexivity|intros t a []]. }
+    destruct Hstep as [usedp [b0 [Hn [Hp1 [Hrj [Hoth [Hlen [Hjt Hasg]]]]]]]].
+    destruct (dpop g1' p) as [[b0' g2]|] eqn:Hpop; [|discriminate].
+    assert (b0' = b0) by (apply dpop_value in Hpop; unfold efind in Hp1; congruence). subst b0'.
+    destruct (replace_jt b0 new_jt) as [b1|] eqn:Hr1; [|discriminate].
+    assert (Hrb : replace_jt b new_jt = Some b1).
+    { destruct (Hrj new_jt) as [E|[E1 E2]]; [rewrite <- E; exact Hr1|congruence]. }
     assert (Hf3 : forall x, efind (dset g2 p b1) x = if Z.eqb x p then Some b1 else efind g1' x).
     { intros x. unfold efind. rewrite zassoc_dset. destruct (Z.eqb x p) eqn:E; [reflexivity|].
       apply Z.eqb_neq in E. eapply zassoc_dpop; eauto. }
@@ -222,11 +250,12 @@ Proof.
     assert (Hfresh1 : forall a, In a names1' -> ~ In a rest).
     { intros a Ha Hi. apply (Hfresh a); [rewrite Hn; apply in_or_app; right; exact Ha|right; exact Hi]. }
     assert (Hup : forall a, In a usedp -> In a names) by (intros a Ha; rewrite Hn; apply in_or_app; left; exact Ha).
-    assert (Hall1 : forall q, In q rest -> exists bq, efind (dset g2 p b1) q = Some bq /\ nonbranch bq).
-    { intros q Hq. destruct (Hall q (or_intror Hq)) as [bq [Hbq Hnbq]]. exists bq. split; [|exact Hnbq].
-      rewrite Hf3. destruct (Z.eqb q p) eqn:E; [apply Z.eqb_eq in E; subst; contradiction|].
-      rewrite Hoth; [exact Hbq|apply Z.eqb_neq; exact E|].
-      intros Hi. apply (Hfresh q (Hup q Hi)). right. exact Hq. }
+    assert (Hsame : forall q, In q rest -> efind (dset g2 p b1) q = efind g q).
+    { intros q Hq. rewrite Hf3. destruct (Z.eqb q p) eqn:E; [apply Z.eqb_eq in E; subst; contradiction|].
+      apply Hoth; [apply Z.eqb_neq; exact E|]. intros Hi. apply (Hfresh q (Hup q Hi)). right. exact Hq. }
+    assert (Hall1 : forall q, In q rest -> exists bq, efind (dset g2 p b1) q = Some bq /\
+                                                     (nonbranch bq \/ filter (rerouted c q) (ejts bq) = [])).
+    { intros q Hq. destruct (Hall q (or_intror Hq)) as [bq [Hbq Hcq]]. exists bq. rewrite (Hsame q Hq). auto. }
     destruct (IH _ _ _ _ H Htd' Hnd1 Hfresh1 Hall1) as [usedr [Hn1 [Hoth1 Hdone1]]].
     exists (usedp ++ usedr). split; [rewrite Hn, Hn1, app_assoc; reflexivity|]. split; [|].
     + intros x Hx Hxu. rewrite Hoth1; [|intros Hi; apply Hx; right; exact Hi|intros Hi; apply Hxu; apply in_or_app; right; exact Hi].
@@ -245,15 +274,14 @@ Proof.
           - intros Hi. destruct Hx as [->|Hx]; [|exact (Hdisj x Hx Hi)].
             apply (Hfresh p); [rewrite Hn, Hn1; apply in_or_app; right; apply in_or_app; left; exact Hi|left; reflexivity]. }
         unfold BlockDone. split; [|split; [exact Hlen|split; [rewrite Hn in Hnd; apply nodup_app_l in Hnd; exact Hnd|]]].
-        -- rewrite (Hkeep p (or_introl eq_refl)), Hf3, Z.eqb_refl. unfold b1. rewrite Hjt. reflexivity.
+        -- exists b1. split; [rewrite (Hkeep p (or_introl eq_refl)), Hf3, Z.eqb_refl; reflexivity|].
+           rewrite <- Hjt. exact Hrb.
         -- intros t a Hin. assert (Ha : In a usedp) by (apply in_combine_r in Hin; exact Hin).
            rewrite (Hkeep a (or_intror Ha)), Hf3.
            destruct (Z.eqb a p) eqn:E; [apply Z.eqb_eq in E; subst; exfalso; apply Hpn; apply Hup; exact Ha|].
            apply Hasg. exact Hin.
       * destruct (Hdone1 q Hq) as [bq [usedq [Hbq [Hd Hsub]]]]. exists bq, usedq.
         split; [|split; [exact Hd|intros a Ha; apply in_or_app; right; apply Hsub; exact Ha]].
-        rewrite Hf3 in Hbq. destruct (Z.eqb q p) eqn:E; [apply Z.eqb_eq in E; subst; contradiction|].
-        rewrite Hoth in Hbq; [exact Hbq|apply Z.eqb_neq; exact E|].
-        intros Hi. apply (Hfresh q (Hup q Hi)). right. exact Hq.
+        rewrite (Hsame q Hq) in Hbq. exact Hbq.
 Qed.
 End Blocks.
